@@ -1,6 +1,7 @@
 import Model.MetricsRs
 import Model.MetricsRsUnits
 import Generated.MetricsRs
+import Props.C20Lemmas
 /-!
 # C20 — the metrics.rs bridge reports every counter increment and sample exactly once
 
@@ -625,6 +626,53 @@ theorem c20_unit_table_preserves_quantity (u : MUnit) :
 
 theorem c20_unit_none_is_none : Generated.MetricsRs.unitNone = QUnit.None := by decide
 
+/-! ## C20, the value a histogram sample is reported at -/
+
+theorem layout_linear : ∀ v, v < 32 → lowerBound 4 v = v ∧ upperBound 4 32 v = v := by decide
+
+/-- **C20 (histograms, value error).** Every `u32` sample `v` is recorded into a bucket `i` of the (4, 32) layout
+(so `record` never fails and never indexes out of the 464 buckets) whose bounds contain `v`; the value reported for
+the bucket (the midpoint, as `u32`) lies inside the bucket and differs from `v` by at most `v/32` — half of the
+documented 6.25 % bucket error. -/
+theorem c20_hist_value_error (v : Nat) (hv : v < two32) :
+    ∃ i, valueToIndex histGrouping histMaxPower v = some i ∧ i < nBuckets ∧
+      lowerBound histGrouping i ≤ v ∧ v ≤ upperBound histGrouping histMaxPower i ∧
+      lowerBound histGrouping i ≤ bucketValue i ∧ bucketValue i ≤ upperBound histGrouping histMaxPower i ∧
+      32 * (bucketValue i - v) ≤ v ∧ 32 * (v - bucketValue i) ≤ v := by
+  have hnb : nBuckets = 464 := by decide
+  simp only [two32] at hv
+  simp only [histGrouping, histMaxPower, hnb, bucketValue, two32]
+  by_cases hsmall : v < 32
+  · refine ⟨v, ?_, by omega, ?_⟩
+    · simp [valueToIndex, hsmall]
+    · obtain ⟨hl, hu⟩ := layout_linear v hsmall
+      rw [hl, hu]
+      have : midpoint v v = v := by simp [midpoint]
+      rw [this, Nat.mod_eq_of_lt hv]
+      omega
+  · have hv0 : v ≠ 0 := by omega
+    have hlo := Nat.log2_self_le hv0
+    have hhi := @Nat.lt_log2_self v
+    have hp31 : v.log2 ≤ 31 := by
+      have := (Nat.log2_lt hv0 (k := 32)).mpr (by simpa using hv)
+      omega
+    have hp5 : 5 ≤ v.log2 := by
+      have h := (Nat.log2_lt hv0 (k := 5))
+      have : ¬ v < 2 ^ 5 := by simpa using hsmall
+      have : ¬ v.log2 < 5 := fun hh => this (h.mp hh)
+      omega
+    obtain ⟨i, lo, hi, hi_def, hlo_def, hhi_def, h1, h2, h3, h4, h5, h6, h7, h8⟩ :=
+      layout_log v v.log2 hp5 hp31 hlo hhi
+    refine ⟨i, ?_, h1, ?_⟩
+    · have h32 : ¬ v < 2 ^ (4 + 1) := by simpa using hsmall
+      have hmax : ¬ v > 2 ^ 32 - 1 := by simp; omega
+      simp only [valueToIndex, h32, hmax, ↓reduceIte, hi_def]
+    · subst hlo_def; subst hhi_def
+      have hmod : midpoint (lowerBound 4 i) (upperBound 4 32 i) % 4294967296
+          = midpoint (lowerBound 4 i) (upperBound 4 32 i) := Nat.mod_eq_of_lt (by omega)
+      rw [hmod]
+      exact ⟨h2, h3, h4, h5, h7, h8⟩
+
 /-- Non-vacuity: two updaters racing with two readouts on one counter (`inc 5`, swap, `inc 7`, `inc 2^64-1`, swap,
 `inc 3`): the reported deltas are 5 and 6 (= 7 + 2^64-1 wrapped), 3 stays; a histogram sample lands between the
 bucket swaps of a drain. -/
@@ -649,3 +697,4 @@ end MetricsRs
 #print axioms MetricsRs.c20_hist_config_matches_source
 #print axioms MetricsRs.c20_unit_table_preserves_quantity
 #print axioms MetricsRs.c20_unit_none_is_none
+#print axioms MetricsRs.c20_hist_value_error
